@@ -411,7 +411,23 @@ def model_set(cfg: dict, tokens):
     return named
 
 
+ENV_DEFAULTS = {
+    # get_default_plot_backend(): "Agg" without DISPLAY, else Qt5Agg / TkAgg;
+    # which one a process writes depends on ITS environment - all are accepted
+    # where a default is (re)assigned, a value the user has set stays exact
+    "plot_backend": ("Agg", "TkAgg", "Qt5Agg"),
+}
+
+
 class Model:
+    def D(self, k):
+        """the value a process assigns when it (re)sets k to its default"""
+        if k in ENV_DEFAULTS:
+            opts = [self.dflt[k]] + [o for o in ENV_DEFAULTS[k]
+                                     if o != self.dflt[k]]
+            return Alt(*opts)
+        return copy.deepcopy(self.dflt[k])
+
     def __init__(self, dflt, version):
         self.dflt = dflt
         self.cur_version = version
@@ -440,12 +456,12 @@ class Model:
         if self.version is None:
             self.version = self.cur_version
         if self.settings is None:
-            self.settings = copy.deepcopy(self.dflt)
+            self.settings = {k: self.D(k) for k in self.dflt}
             events.append("reinit")
         if self.version != self.cur_version:
             added = [k for k in self.dflt if k not in self.settings]
             for k in added:
-                self.settings[k] = copy.deepcopy(self.dflt[k])
+                self.settings[k] = self.D(k)
             self.version = self.cur_version
             events.append("upgrade")
             if added:
@@ -925,6 +941,9 @@ class C18(Check):
                             "md_a": sg.gen_other_config(rng, dflt),
                             "md_b": sg.gen_other_config(rng, dflt),
                             "md_soft": rng.random() < 0.5})
+        for op in ops:
+            if not op["op"].startswith("env_") and rng.random() < 0.2:
+                op["display"] = True
         return {"kind": "history", "seed": rng.getrandbits(32), "init": init,
                 "ops": ops}
 
@@ -997,6 +1016,11 @@ class C18(Check):
         changed_any = False
         for oi, op in enumerate(case["ops"]):
             before = digest_of(sorted(sim.fs.snapshot().items()))
+            # the environment of the processes of this operation (a desktop
+            # session has DISPLAY, cron / ssh / a container has not)
+            self._cur_env = {"DISPLAY": ":0"} if op.get("display") else {}
+            if op.get("display"):
+                sim.probe("process_with_display")
             try:
                 violation = self._do_op(sim, model, op, res)
             except HarnessError:
@@ -1030,6 +1054,10 @@ class C18(Check):
 
     # -- helpers
     def _run(self, sim, cmds):
+        env = getattr(self, "_cur_env", None)
+        if env:
+            cmds = [dict(c, env=env) if c.get("cmd") != "env" else c
+                    for c in cmds]
         vps = sim.run([cmds])
         if sim.hang:
             raise HarnessError("step cap exceeded in a fault-free history")
@@ -1100,7 +1128,22 @@ class C18(Check):
         ev = model.start()
         for e in ev:
             sim.probe(e)
+        self._resolve_env_defaults(sim, model)
         return ev
+
+    def _resolve_env_defaults(self, sim, model):
+        """an environment-dependent default that was just assigned: take the
+        variant the process wrote, if it is one of the admissible ones"""
+        if model.settings is None:
+            return
+        actual = self._disk_settings(sim)
+        if not isinstance(actual, dict):
+            return
+        for k in ENV_DEFAULTS:
+            mv = model.settings.get(k)
+            if isinstance(mv, Alt) and k in actual and any(
+                    same(o, actual[k]) for o in mv.options):
+                model.settings[k] = actual[k]
 
     def _do_op(self, sim, model, op, res):
         kind = op["op"]
@@ -1209,7 +1252,7 @@ class C18(Check):
             self._start_events(sim, model, res)
             if op["answers"] is None or answers == ["y"]:
                 old = plain_dict(model.settings)
-                model.settings = copy.deepcopy(dflt)
+                model.settings = {k: model.D(k) for k in dflt}
                 # obsolete keys may be kept (with their values) or dropped
                 actual = self._disk_settings(sim)
                 if isinstance(actual, dict):
@@ -1235,7 +1278,7 @@ class C18(Check):
                 if k in dflt:
                     if not same(_plain(model.settings.get(k)), dflt[k]):
                         sim.probe("reset_subset_restored_changed_value")
-                    model.settings[k] = copy.deepcopy(dflt[k])
+                    model.settings[k] = model.D(k)
             v = self._check_process("reset_subset", results)
             return v or self._compare_disk(sim, model, "reset_subset",
                                            op["keys"])
@@ -1362,7 +1405,9 @@ class C18(Check):
             for k, v in self.dflt.items():
                 effective.setdefault(k, v)
         effective.update({k: v for k, v in cfg.items() if k in effective})
-        import_plot = sg.plot_import_safe(effective)
+        # (a process with DISPLAY may initialise plot_backend to a GUI
+        # backend, which cannot be loaded in this headless sandbox)
+        import_plot = sg.plot_import_safe(effective) and not op.get("display")
         cmds = [
             {"cmd": "parse", "app": op["app"], "import_plot": import_plot,
              "entry_order": True,
